@@ -13,7 +13,7 @@ CBMC_TIMEOUT = int(os.environ.get('VF_CBMC_TIMEOUT', '600'))
 CBMC_MEM_KB = 12 * 1024 * 1024
 
 CBMC_CHECKS = ['--bounds-check', '--pointer-check', '--pointer-overflow-check',
-               '--signed-overflow-check', '--div-by-zero-check', '--pointer-primitive-check']
+               '--signed-overflow-check', '--div-by-zero-check', '--pointer-primitive-check', '--sat-solver', 'cadical']
 
 
 class Undecided(Exception):
@@ -319,6 +319,19 @@ def weave(job, cpath, info, outdir, witness_mode=False):
             'has_loops': bool(loops)}
 
 
+_toolver = {}
+
+
+def TOOLVER():
+    if 'v' not in _toolver:
+        try:
+            v = subprocess.run(['cbmc', '--version'], capture_output=True, text=True).stdout.strip()
+        except Exception:
+            v = '?'
+        _toolver['v'] = v + '|' + tools_hash()
+    return _toolver['v']
+
+
 # ------------------------------------------------------------------- running
 def _limit():
     resource.setrlimit(resource.RLIMIT_AS, (CBMC_MEM_KB * 1024, CBMC_MEM_KB * 1024))
@@ -335,7 +348,7 @@ def run_cmd(cmd, timeout, log):
     return rc, so, se, time.time() - t0
 
 
-def run_job(job, cpath, info, tier, defines=(), subdir=None, witness_mode=False):
+def run_job(job, cpath, info, tier, defines=(), subdir=None, witness_mode=False, timeout=None):
     """returns result dict: status in {'ok','failed','undecided'}, obligations list"""
     jdir = os.path.join(WORK, 'jobs', job.group, job.name + (subdir or ''))
     shutil.rmtree(jdir, ignore_errors=True)
@@ -351,6 +364,21 @@ def run_job(job, cpath, info, tier, defines=(), subdir=None, witness_mode=False)
             return res
         res['entry'] = w['entry']
         res['entry_pretty'] = info['functions'][w['entry']]['pretty']
+        # content-addressed result cache: the woven C text is regenerated from /repo on every run; only a solver
+        # run on byte-identical input (same woven text, same flags, same tools) is reused
+        ckey = sha(open(w['path']).read(), repr(list(defines)), repr(job.flags), str(job.unwind), job.solver,
+                   repr(CBMC_CHECKS), str(witness_mode), TOOLVER())
+        cfile = os.path.join(WORK, 'cache', ckey + '.json')
+        if os.path.exists(cfile) and not os.environ.get('VF_NOCACHE'):
+            try:
+                cres = json.load(open(cfile))
+                cres['contracts'] = w['contracts']
+                cres['dir'] = jdir
+                cres['cached'] = True
+                return cres
+            except Exception:
+                pass
+        res['_cfile'] = cfile
         res['replaced'] = [info['functions'][c]['pretty'] for c in w['replaced']]
         a = os.path.join(jdir, 'a.gb'); b = os.path.join(jdir, 'b.gb')
         rc, so, se, dt = run_cmd(['goto-cc', '--function', 'main', '-DVF_CBMC'] + list(defines) + ['-I', os.path.join(VERIF, 'contracts'),
@@ -384,7 +412,7 @@ def run_job(job, cpath, info, tier, defines=(), subdir=None, witness_mode=False)
         elif job.solver == 'cvc5':
             cmd += ['--cvc5']
         res['checker_cmd'] = ' '.join(cmd)
-        rc, so, se, dt = run_cmd(cmd, job.timeout or CBMC_TIMEOUT, log)
+        rc, so, se, dt = run_cmd(cmd, timeout or job.timeout or CBMC_TIMEOUT, log)
         res['solver_s'] = round(dt, 2)
         open(os.path.join(jdir, 'cbmc.json'), 'w').write(so)
         if rc == -999:
@@ -431,8 +459,15 @@ def run_job(job, cpath, info, tier, defines=(), subdir=None, witness_mode=False)
         if w['has_loops'] and not any('loop_invariant_step' in (o['name'] or '') or 'loop invariant' in (o['desc'] or '').lower() for o in obs):
             res['reason'] = 'loop contracts given but no loop-invariant obligation was generated'
             return res
-        res['contracts'] = w['contracts']
         res['status'] = 'done'
+        try:
+            os.makedirs(os.path.dirname(res['_cfile']), exist_ok=True)
+            tmp = res['_cfile'] + '.%d.tmp' % os.getpid()
+            json.dump({k: v for k, v in res.items() if k not in ('contracts', '_cfile')}, open(tmp, 'w'))
+            os.rename(tmp, res['_cfile'])
+        except Exception:
+            pass
+        res['contracts'] = w['contracts']
         return res
     finally:
         log.close()
